@@ -16,6 +16,7 @@
 -/
 import Lcapy.Proofs.Ground
 import Lcapy.Props.C01
+import Mathlib.Tactic.Linarith
 namespace Lcapy.C04
 open Lcapy.MNA Ix
 variable {K : Type} [Field K]
@@ -193,5 +194,23 @@ example : (∀ c ∈ exDivider, c.GroundFree) := by simp [exDivider, Cpt.GroundF
 
 example : regroundSol 2 exDividerSol (node 1) = 2 ∧ regroundSol 2 exDividerSol (node 2) = -4 := by
   norm_num [regroundSol, swap0, volt, exDividerSol]
+
+/-- non-vacuity of `Measures`: the driving-point impedance of `R1 1 0 5` is 5 -/
+example : Measures .dc (0 : ℚ) (impedanceExp [.R 1 0 5] 1 0) 5 := by
+  constructor
+  · refine ⟨fun i => match i with | node 1 => 5 | _ => 0, ?_, ?_⟩
+    · intro k hk
+      match k with
+      | 0 => exact absurd rfl hk
+      | 1 => norm_num [impedanceExp, zProbe, killAll, Cpt.mapSrc, outflow, twoTerm, lsum, vd, volt]
+      | (k + 2) => simp [impedanceExp, zProbe, killAll, Cpt.mapSrc, outflow, twoTerm, lsum]
+    · intro c hc p hp
+      simp [impedanceExp, zProbe, killAll, Cpt.mapSrc] at hc
+      rcases hc with rfl | rfl <;> simp [laws] at hp
+  · intro x hx
+    have k1 := hx.1 1 (by decide)
+    simp [impedanceExp, zProbe, killAll, Cpt.mapSrc, outflow, twoTerm, lsum] at k1
+    simp only [impedanceExp, Obs.read]
+    linarith
 
 end Lcapy.C04
